@@ -448,6 +448,42 @@ func readGen(text string) (bufconfig.BufGenYAMLFile, error) {
 	return bufconfig.ReadBufGenYAMLFile(strings.NewReader(text))
 }
 
+// roundTripBufGen is read -> dump -> write -> read -> dump -> write for a buf.gen.yaml text. For a
+// v1/v1beta1 template the re-read dump is compared with the reference conversion of the first dump.
+func roundTripBufGen(text string) (res rtResult, typesDropped bool) {
+	f1, err := readGen(text)
+	if err != nil {
+		res.rejectWhy = err.Error()
+		return res, false
+	}
+	res.accepted = true
+	res.dump1 = DumpBufGen(f1)
+	expected := res.dump1
+	if res.dump1["file_version"] != "v2" {
+		expected, typesDropped = convertGenDumpToV2(res.dump1)
+	}
+	var w1 bytes.Buffer
+	if err := bufconfig.WriteBufGenYAMLFile(&w1, f1); err != nil {
+		res.writeErr = err
+		return res, typesDropped
+	}
+	res.written1 = w1.String()
+	f2, err := readGen(res.written1)
+	if err != nil {
+		res.rereadErr = err
+		return res, typesDropped
+	}
+	res.diffs = DiffTrees(expected, DumpBufGen(f2))
+	var w2 bytes.Buffer
+	if err := bufconfig.WriteBufGenYAMLFile(&w2, f2); err != nil {
+		res.write2Err = err
+		return res, typesDropped
+	}
+	res.written2 = w2.String()
+	res.idempotent = res.written2 == res.written1
+	return res, typesDropped
+}
+
 func runBufGen(r *evid.Run, t int) {
 	for _, n := range []string{localName, builtinName, "kotlin", "cpp"} {
 		if _, err := exec.LookPath("protoc-gen-" + n); err == nil {
@@ -492,15 +528,12 @@ func runBufGen(r *evid.Run, t int) {
 		j := jobs[items[i].j]
 		doc := renderGen(j.version, j.dims, j.ix, j.vecs[items[i].k])
 		r.Eval(1)
-		var res rtResult
-		f1, err := readGen(doc.Text)
-		if err != nil {
+		res, typesDropped := roundTripBufGen(doc.Text)
+		if !res.accepted {
 			cov.add("rejected_by_reader", 1)
-			rejects.add(shorten(err.Error()), 1)
+			rejects.add(shorten(res.rejectWhy), 1)
 			return
 		}
-		res.accepted = true
-		res.dump1 = DumpBufGen(f1)
 		cov.add("accepted", 1)
 		cov.add("accepted/"+j.version, 1)
 		changed := treeJSON(res.dump1) != j.base
@@ -514,34 +547,13 @@ func runBufGen(r *evid.Run, t int) {
 		if changed {
 			r.Distinct("bufgen|" + doc.Text)
 		}
-		expected := res.dump1
 		if j.version != "v2" {
-			var typesDropped bool
-			expected, typesDropped = convertGenDumpToV2(res.dump1)
 			cov.add("converted_to_v2_by_writer", 1)
 			if typesDropped {
 				cov.add("info_v1_top_level_types_not_representable_in_v2", 1)
 			}
 		}
 		countGenClauses(cov, res.dump1)
-		var w1 bytes.Buffer
-		if err := bufconfig.WriteBufGenYAMLFile(&w1, f1); err != nil {
-			res.writeErr = err
-		} else {
-			res.written1 = w1.String()
-			if f2, err := readGen(res.written1); err != nil {
-				res.rereadErr = err
-			} else {
-				res.diffs = DiffTrees(expected, DumpBufGen(f2))
-				var w2 bytes.Buffer
-				if err := bufconfig.WriteBufGenYAMLFile(&w2, f2); err != nil {
-					res.write2Err = err
-				} else {
-					res.written2 = w2.String()
-					res.idempotent = res.written2 == res.written1
-				}
-			}
-		}
 		if len(res.diffs) == 0 && res.writeErr == nil && res.rereadErr == nil {
 			cov.add("round_trip_equal", 1)
 		}
@@ -587,15 +599,16 @@ func runBufGen(r *evid.Run, t int) {
 
 // genNoEffectExpected: accepted alone only in combination / no effect alone by design.
 var genNoEffectExpected = map[string]bool{
-	"v2:p0.include_wkt=1":  true, // rejected without include_imports; accepted in the pair
-	"v2:in.opts=1":         true, // options need an input kind
-	"v2:in.opts=2":         true,
-	"v2:in.types=1":        true,
+	"v1:p0.kind=2":          true, // "plugin: <local name>" parses to the same config as "name: <local name>"
+	"v2:p0.include_wkt=1":   true, // rejected without include_imports; accepted in the pair
+	"v2:in.opts=1":          true, // options need an input kind
+	"v2:in.opts=2":          true,
+	"v2:in.types=1":         true,
 	"v2:in.exclude_types=1": true,
-	"v2:in.paths=1":        true,
+	"v2:in.paths=1":         true,
 	"v2:in.exclude_paths=1": true,
-	"v2:p0.strategy=1":     true, // "directory" is the default strategy; Strategy() does not distinguish unset
-	"v1:p0.strategy=1":     true,
+	"v2:p0.strategy=1":      true, // "directory" is the default strategy; Strategy() does not distinguish unset
+	"v1:p0.strategy=1":      true,
 	"v1beta1:p0.strategy=1": true,
 }
 
